@@ -250,7 +250,13 @@ class ComponentTensor(Operator):
         # as the result of this method is not cached.
         if isinstance(B, Indexed):
             C, kk = B.ufl_operands
-            if isinstance(C, ListTensor) and len(kk) == 1 and isinstance(rep.get(kk[0]), FixedIndex):
+            if (
+                isinstance(C, ListTensor)
+                and len(kk) == 1
+                and isinstance(rep.get(kk[0]), FixedIndex)
+                # the entries must not depend on the index that is replaced by a fixed one
+                and kk[0].count() not in C.ufl_free_indices
+            ):
                 (k,) = kk
                 B = C.ufl_operands[int(rep[k])]
                 jj = MultiIndex(tuple(j for j in jj if j != k))
@@ -258,7 +264,8 @@ class ComponentTensor(Operator):
                 rep = dict(zip(jj, multiindex))
         if isinstance(B, Indexed):
             C, kk = B.ufl_operands
-            if all(j in kk for j in jj):
+            # C itself must not depend on the bound indices (then C[kk] is a "diagonal" of C)
+            if all(j in kk for j in jj) and not ({j.count() for j in jj} & set(C.ufl_free_indices)):
                 Cind = tuple(rep.get(k, k) for k in kk)
                 return Indexed(C, MultiIndex(Cind))
         return Operator._simplify_indexed(self, multiindex)
